@@ -105,16 +105,14 @@ Compatible(a, b) ==
     /\ CASE Variant = "nodisjoint" -> TRUE
          [] Variant = "asym" -> ~(a[2] \subseteq b[2])
          [] OTHER -> a[2] \cap b[2] = {}               \* no child shared (by identity)
-RECURSIVE MergeFrom(_, _, _, _, _)
-\* ExpressionAnd.merge_and_groups: nested loop, first occurrence wins among equal merged results
-MergeFrom(T, s1, s2, i, acc) ==
-    IF i >= Len(s1) * Len(s2) THEN acc
-    ELSE LET a == s1[(i \div Len(s2)) + 1]
-             b == s2[(i % Len(s2)) + 1]
-             m == <<a[1], a[2] \cup b[2]>>
-         IN MergeFrom(T, s1, s2, i + 1,
-                      IF Compatible(a, b) /\ ~InList(T, m, acc) THEN Append(acc, m) ELSE acc)
-AndSeq(T, s1, s2) == IF s1 = <<>> \/ s2 = <<>> THEN <<>> ELSE MergeFrom(T, s1, s2, 0, <<>>)
+\* ExpressionAnd.merge_and_groups: nested loop (left results outer, right results inner); among
+\* equal merged results the first occurrence wins
+MergeRow(T, acc, a, s2) ==
+    FoldLeft(LAMBDA acc2, b : LET m == <<a[1], a[2] \cup b[2]>>
+                              IN IF Compatible(a, b) /\ ~InList(T, m, acc2) THEN Append(acc2, m) ELSE acc2,
+             acc, s2)
+AndSeq(T, s1, s2) == IF s1 = <<>> \/ s2 = <<>> THEN <<>>
+                     ELSE FoldLeft(LAMBDA acc, a : MergeRow(T, acc, a, s2), <<>>, s1)
 \* ExpressionOr.handle_expr: left results that duplicate a right result are dropped, then concatenation
 OrSeq(T, s1, s2) == IF Variant = "orleft" THEN (IF s1 # <<>> THEN s1 ELSE <<>>)
                     ELSE SelectSeq(s1, LAMBDA a : ~InList(T, a, s2)) \o s2
